@@ -77,17 +77,50 @@ def sched_line(sched):
     return f'config {len(sched)} ' + ' '.join(parts)
 
 
-def run_schedule(sched, n_threads):
-    ws = [Worker() for _ in range(n_threads)]
+class Inline:
+    """thread 0 of a schedule is the harness's own (importing) thread: some defects only show when the thread that
+    imported the package changes its setting before another thread first touches the configuration"""
+
+    def __init__(self):
+        self.cms = []
+
+    def do(self, a):
+        kind, v = a
+        if kind == 'g':
+            return pykoop.get_config()['skip_validation']
+        if kind == 's':
+            pykoop.set_config(skip_validation=v)
+        elif kind == 'e':
+            cm = pykoop.config_context(skip_validation=v)
+            cm.__enter__()
+            self.cms.append(cm)
+        elif kind == 'x' and self.cms:
+            self.cms.pop().__exit__(None, None, None)
+        return None
+
+    def close(self):
+        while self.cms:
+            self.cms.pop().__exit__(None, None, None)
+        pykoop.set_config(skip_validation=False)
+
+
+def run_schedule(sched, n_threads, main_is_zero=False):
+    ws = [Inline() if (main_is_zero and i == 0) else Worker() for i in range(n_threads)]
     for w in ws:
-        w.start()
+        if isinstance(w, Worker):
+            w.start()
     log = []
-    for t, k, v in sched:
-        out = ws[t].do((k, v))
-        if k == 'g':
-            log.append(f'{t}:{1 if out else 0}')
-    for w in ws:
-        w.q.put(None)
+    try:
+        for t, k, v in sched:
+            out = ws[t].do((k, v))
+            if k == 'g':
+                log.append(f'{t}:{1 if out else 0}')
+    finally:
+        for w in ws:
+            if isinstance(w, Worker):
+                w.q.put(None)
+            else:
+                w.close()
     return log
 
 
@@ -282,7 +315,7 @@ def run(ctx):
     for i in range(ctx.n(60, 600)):
         nt = ctx.rng.randint(1, 3)
         sched = gen_schedule(ctx.rng, nt, ctx.rng.randint(4, 14 if ctx.tier == 'quick' else 30))
-        log = run_schedule(sched, nt)
+        log = run_schedule(sched, nt, main_is_zero=(i % 2 == 0))
         lines.append(sched_line(sched))
         meta.append(('sched', sched, log))
     for i in range(ctx.n(60, 600)):
